@@ -523,7 +523,7 @@ impl IndexHeader {
     pub(crate) fn parse(input: &[u8]) -> Result<Self, Error> {
         // first three bytes are magic
         let (rest, magic) = complete::take(3usize)(input)?;
-        for i in 0..2 {
+        for i in 0..HEADER_MAGIC.len() {
             if HEADER_MAGIC[i] != magic[i] {
                 return Err(Error::InvalidMagic {
                     expected: HEADER_MAGIC[i],
